@@ -369,11 +369,16 @@ func (h *eventHeap) Pop() interface{} {
 
 type evalErr struct{ msg string }
 
+// evalLoc is the zone in which zone-less time strings of the condition are read (the zone of the
+// query's TZ clause / of the evaluating valuer). A window written by SetTimeRange must select the
+// same instants whatever that zone is.
+var evalLoc = time.UTC
+
 func timeOfLiteral(e influxql.Expr) (int64, bool) {
 	switch x := e.(type) {
 	case *influxql.StringLiteral:
 		for _, f := range []string{time.RFC3339Nano, "2006-01-02 15:04:05.999999999", "2006-01-02"} {
-			if t, err := time.ParseInLocation(f, x.Val, time.UTC); err == nil {
+			if t, err := time.ParseInLocation(f, x.Val, evalLoc); err == nil {
 				return t.UnixNano(), true
 			}
 		}
@@ -589,6 +594,10 @@ func (C18) Exec(pi interface{}) *core.RunResult {
 	var trace strings.Builder
 	pending := []([2]int64){}
 
+	zoneB, _ := time.LoadLocation("America/New_York")
+	if loc != nil {
+		zoneB = loc
+	}
 	apply := func(ws, we int64, why string) bool {
 		start, end := time.Unix(0, ws), time.Unix(0, we)
 		if useZone && loc != nil {
@@ -647,7 +656,18 @@ func (C18) Exec(pi interface{}) *core.RunResult {
 						for _, t := range pts {
 							pt.T = t
 							want := nonTime && ws <= t && t < we
+							evalLoc = time.UTC
 							got, eerr := evalAST(stmt.Condition, pt)
+							if eerr == nil && got == want && zoneB != nil {
+								// the same condition read in a non-UTC evaluation zone
+								evalLoc = zoneB
+								got, eerr = evalAST(stmt.Condition, pt)
+								evalLoc = time.UTC
+								if eerr == nil && got != want {
+									res.Violate("selection-mismatch:zone", fmt.Sprintf("evaluated in zone %s, point {host=%s region=%s value=%v n=%v time=%d (%s)}: statement selects it = %v, expected %v (window [%d, %d)): the window depends on the evaluation zone\n%s", zoneB, host, region, value, nn, t, time.Unix(0, t).UTC().Format(time.RFC3339Nano), got, want, ws, we, ctx()))
+									return false
+								}
+							}
 							if eerr != nil {
 								res.Violate("selection-mismatch", "after SetTimeRange the condition contains a form that is neither a kept predicate nor the window: "+eerr.msg+"\n"+ctx())
 								return false
